@@ -22,6 +22,34 @@ type Case struct {
 	V     [3]float32 `json:"v"`    // XYZ or Lab
 	White [3]float32 `json:"white"`
 	Axis  int        `json:"axis,omitempty"`
+	// After > 0: before the case, the library is asked one conversion that lies OUTSIDE the property's domain
+	// (non-finite component, white with a zero or NaN component; number After-1 of the list in outside());
+	// whatever it answers is ignored.  What such a call leaves behind must not reach the next, ordinary one.
+	After int `json:"after,omitempty"`
+}
+
+// outside performs conversion number i of a fixed list of out-of-domain requests; panics are swallowed.
+func outside(i int) {
+	nan, inf := float32(math.NaN()), float32(math.Inf(1))
+	type q struct{ c, w ciexyz.Color }
+	qs := []q{
+		{ciexyz.Color{X: 0.5, Y: 0.4, Z: nan}, ciexyz.D50},
+		{ciexyz.Color{X: nan, Y: 0.1, Z: 0.2}, ciexyz.D65},
+		{ciexyz.Color{X: 0.3, Y: inf, Z: 0.2}, ciexyz.D50},
+		{ciexyz.Color{X: 0.3, Y: 0.2, Z: -inf}, ciexyz.D65},
+		{ciexyz.Color{X: 0.2, Y: 0.3, Z: 0.4}, ciexyz.Color{X: 0.9, Y: 1, Z: 0}},
+		{ciexyz.Color{X: 0.2, Y: 0.3, Z: 0.4}, ciexyz.Color{X: 0, Y: 1, Z: 1}},
+		{ciexyz.Color{X: 0.7, Y: 0.3, Z: 0.4}, ciexyz.Color{X: 1, Y: 0, Z: 1}},
+		{ciexyz.Color{X: 0.2, Y: 0.3, Z: 0.4}, ciexyz.Color{X: nan, Y: 1, Z: 1}},
+		{ciexyz.Color{X: 0, Y: 0, Z: 0}, ciexyz.Color{}},
+		{ciexyz.Color{X: 0.2, Y: 0.3, Z: 0.4}, ciexyz.Color{X: -1, Y: 1, Z: inf}},
+	}
+	x := qs[((i%len(qs))+len(qs))%len(qs)]
+	ev.Guard(func() {
+		lab := x.c.ToLAB(x.w)
+		ciexyz.ColorFromLAB(lab, x.w)
+		ciexyz.ColorFromLAB(cielab.Color{L: nan, A: float32(i), B: inf}, x.w)
+	})
 }
 
 func col(v [3]float32) ciexyz.Color { return ciexyz.Color{X: v[0], Y: v[1], Z: v[2]} }
@@ -37,6 +65,9 @@ func finite(xs ...float32) bool {
 }
 
 func check(c Case) (string, string) {
+	if c.After > 0 {
+		outside(c.After - 1)
+	}
 	var k, w string
 	if pn, msg := ev.Guard(func() { k, w = checkInner(c) }); pn {
 		return "panic", msg
@@ -210,7 +241,7 @@ func TestC13(t *testing.T) {
 		fmt.Println("REPLAY case passed:", c)
 		return
 	}
-	ev.Rule("XYZ lattice over [-0.5,2]^3 (64^3 quick, 256^3 thorough) and rapid float32 triples, x whites {D50, D65, rapid positive whites with components in [0.5,2], lopsided whites with components log-uniform in [1e-4, 3.2] and the colour given relative to the white}; junction sweeps of 4000 consecutive float32 values centred on white*216/24389 on each axis; multiples t*white for t in (0,2]; Lab box L in [-10,110], a,b in [-200,200] for the inverse; (Y, next float) pairs for monotone L*; very large finite XYZ for finiteness. non-trivial = distinct case with a component outside [0,1], a ratio within 1e-3 of the junction, a non-standard white, or any non-ToLAB kind")
+	ev.Rule("XYZ lattice over [-0.5,2]^3 (64^3 quick, 256^3 thorough) and rapid float32 triples, x whites {D50, D65, rapid positive whites with components in [0.5,2], lopsided whites with components log-uniform in [1e-4, 3.2] and the colour given relative to the white}; junction sweeps of 4000 consecutive float32 values centred on white*216/24389 on each axis; multiples t*white for t in (0,2]; Lab box L in [-10,110], a,b in [-200,200] for the inverse; (Y, next float) pairs for monotone L*; very large finite XYZ for finiteness; an eighth of the rapid cases and half of the special-value cases directly follow a request outside the domain (non-finite component, white with a zero/NaN/negative component) whose answer is ignored. non-trivial = distinct case with a component outside [0,1], a ratio within 1e-3 of the junction, a non-standard white, or any non-ToLAB kind")
 	ev.Assume("float64 CIE 1976 formulas in internal/ref (math.Cbrt, eps=216/24389, kappa=24389/27); colour/white ratios within about [-1, 4] (whites >= 0.5 per component for colours in [-0.5,2]^3; for smaller whites the colour is drawn relative to the white) so that the stated tolerances are satisfiable by a float32 result")
 	whites := [][3]float32{D50, D65, {0.5, 0.5, 0.5}, {2, 2, 2}, {0.7, 1, 1.9}, {1.3, 0.55, 0.8}, {1.3233, 1, 0.0023}, {0.004, 0.9, 1.2}}
 	n := ev.Pick(64, 256)
@@ -349,6 +380,7 @@ func TestC13(t *testing.T) {
 			}
 		}
 	}
+	nspecial := 0
 	// exact special values: components exactly 0, exactly white*eps (as float32), exactly the white, and Lab values
 	// exactly at L* = 8 (= kappa*eps), 0 and 100
 	for _, w := range whites {
@@ -359,6 +391,10 @@ func TestC13(t *testing.T) {
 			for _, y := range sp(1) {
 				for _, z := range sp(2) {
 					c := Case{Kind: "tolab", V: [3]float32{x, y, z}, White: w}
+					nspecial++
+					if nspecial%2 == 0 {
+						c.After = 1 + nspecial/2%10
+					}
 					ev.Eval(1)
 					ev.NT(ev.Hash("special", c))
 					if kk, ww := check(c); kk != "" {
@@ -446,6 +482,13 @@ func TestC13(t *testing.T) {
 					}
 				}
 				c.V[i] = tt * c.White[i] * (1 + d)
+			}
+		}
+		if rapid.IntRange(0, 7).Draw(rt, "afteroutside") == 0 {
+			c.After = rapid.IntRange(1, 10).Draw(rt, "outside")
+			// zero components meet leftovers most easily
+			if c.Kind == "tolab" && rapid.Bool().Draw(rt, "zerocomp") {
+				c.V[rapid.IntRange(0, 2).Draw(rt, "zeroaxis")] = 0
 			}
 		}
 		ev.Eval(1)
